@@ -69,6 +69,9 @@ def correspond(ctx):
     for i, c in enumerate(cuts):
         sa, sb = states[2 * i], states[2 * i + 1]
         st = c.get("state") or []
+        if not st and not c.get("err"):
+            # neither a state nor an error: the recovering child process never ran (not a verdict about the code)
+            raise C.MachineryError("crash enumeration: the recovering process of workload %s cut %s produced nothing (even after retries)" % (c.get("workload"), c.get("cut")))
         why = None
         if c.get("err"):
             why = "reopen-failed"
